@@ -7,6 +7,7 @@ import AnySyncModel.Generated.AuthShape
   tree <raw>                        → ok | err:<enum>
   add <raw> <raw> …                 → <status> add=<ids in attach order> h=… a=… s=… sh=…   (sorted sets)
   content id=<n> acc=<a>            → like add (the local AddContent path; id = the id the real builder produced)
+  aclfault <rec>                    → ok   (a refused ACL record: the local log does not change)
   reopen                            → ok | err
   validate heads=<a.b|-> <root raw> <raw> …   → ok a=… | err:<enum>      (ValidateRawTreeDefault)
   raw = id=<n>,cid=<n>,b=<n>,dec=0|1[,p=<n>,sig=S.<k>.<p>|G.<n>|N,der=0|1,idt=<acc>,acl=<rec>,prev=<a.b|->,snap=<n>,iss=0|1]
@@ -136,6 +137,10 @@ def step (st : St) (line : String) : St × String :=
         | .ok => "ok" | .err e => showErr e | .rebuild => "rebuild"
       ({ st with tree := some t' }, s!"{status} add={showIds added} {post t'}")
     | _, _, _ => (st, "bad-op")
+  | ["aclfault", _] =>
+    -- the receiver was offered the next record while its record storage refused the write: the
+    -- record is neither stored nor applied, the local log is what it was
+    (st, "ok")
   | ["reopen"] =>
     match st.tree with
     | some t => (st, if reopen cw keep st.log t then "ok" else "err")
